@@ -24,6 +24,7 @@ type opRec struct {
 	Out       Outcome `json:"out"`
 	Steps     int     `json:"steps"`
 	StoreOffs []int   `json:"-"`
+	SyncOffs  []int   `json:"-"`
 	NDec      int     `json:"-"`
 	HookFired bool    `json:"-"`
 	Invoke    uint64  `json:"-"`
@@ -166,6 +167,7 @@ func (e *runEnv) doOp(t int, op plan.SOp, locals *[]*Object, checkDatum bool) op
 	rec.Return = verifsim.Steps()
 	rec.Steps = ctx.Steps
 	rec.StoreOffs = ctx.StoreOffs
+	rec.SyncOffs = ctx.SyncOffs
 	rec.NDec = ctx.NDecisions
 	rec.HookFired = ctx.HookFired
 	if before != "" {
@@ -419,6 +421,53 @@ func significant(p *plan.SchedPlan, t, j int, got, want Outcome) (string, bool) 
 	return "", false
 }
 
+// outClass is the part of an outcome that must agree across processes: success
+// with its boolean / value, or failure (error and panic are one class).
+func outClass(o Outcome) string {
+	switch {
+	case o.Skip:
+		return "skip"
+	case o.HasErr || o.Panic != "":
+		return "fail"
+	case o.Value != "":
+		return fmt.Sprintf("val:%x", hashBytes([]byte(o.Value)))
+	}
+	return fmt.Sprintf("ok:%v", o.Bool)
+}
+
+// judgeRef compares the executing process with the generating one: the
+// concurrent run and the sequential run that *follows* it must fall into the
+// outcome classes the purely sequential generating process recorded. This is
+// the only oracle that sees a concurrent run damaging state that outlives the
+// objects (a package-level table), because every reference computed afterwards
+// in the same process is damaged in the same way.
+func judgeRef(p *plan.SchedPlan, conc, histAfter *passResult) []Finding {
+	var out []Finding
+	if len(p.RefOut) != len(p.Tasks) {
+		return nil
+	}
+	for t := range p.Tasks {
+		if len(p.RefOut[t]) != len(p.Tasks[t]) {
+			return nil
+		}
+	}
+	for t := range p.Tasks {
+		for j, op := range p.Tasks[t] {
+			want := p.RefOut[t][j]
+			if got := outClass(conc.Recs[t][j].Out); got != want && want != "skip" && got != "skip" {
+				out = append(out, Finding{Property: "C12", Kind: "differs-from-sequential-process", Key: "C12/differs-from-sequential-process/" + op.Kind, Task: t, Op: j,
+					Detail: fmt.Sprintf("%s: under the concurrent schedule it returned %s; a process that made the same calls one after another got outcome class %s", describeOp(p, t, j), conc.Recs[t][j].Out, want)})
+				continue
+			}
+			if got := outClass(histAfter.Recs[t][j].Out); got != want && want != "skip" && got != "skip" {
+				out = append(out, Finding{Property: "C12", Kind: "damaged-by-concurrent-run", Key: "C12/damaged-by-concurrent-run/" + op.Kind, Task: t, Op: j,
+					Detail: fmt.Sprintf("%s: made sequentially on fresh shared objects AFTER the concurrent run it returned %s; a process that never ran the calls concurrently got outcome class %s - the concurrent run left damage that outlives the objects", describeOp(p, t, j), histAfter.Recs[t][j].Out, want)})
+			}
+		}
+	}
+	return out
+}
+
 // judgeHistory applies the C13 oracles: history pass vs stateless reference.
 func judgeHistory(p *plan.SchedPlan, fresh, hist *passResult) []Finding {
 	var out []Finding
@@ -514,7 +563,7 @@ func judgeConc(p *plan.SchedPlan, fresh, hist, conc *passResult) []Finding {
 
 // ---- plan generation ---------------------------------------------------------
 
-var policies = []string{"back-to-back", "uniform", "uniform", "window", "dense", "rr", "lockstep"}
+var policies = []string{"back-to-back", "uniform", "uniform", "window", "dense", "rr", "lockstep", "syncgap"}
 
 func genObj(r *plan.Rand, uniq string, data []DatumSpec, allowFilter bool) (ObjSpec, int) {
 	di := r.Intn(len(data))
@@ -576,6 +625,9 @@ func GenSchedPlan(seed uint64, idx int, prop string) *plan.SchedPlan {
 	k := 1
 	if prop == "C12" {
 		k = r.Range(2, 4)
+	}
+	if prop == "C12" && r.Chance(0.3) {
+		return genHammer(p, r, uniq, k)
 	}
 	nData := r.Range(1, 3)
 	for i := 0; i < nData; i++ {
@@ -667,11 +719,74 @@ func GenSchedPlan(seed uint64, idx int, prop string) *plan.SchedPlan {
 	return p
 }
 
+// genHammer is the classic shape of a concurrency test: every caller makes the
+// same few calls on one shared object (same or sibling data), so that whatever
+// a call does on first use - grow a table, fill a cache, publish a value - all
+// callers reach at the same program point; lockstep and sync-gap schedules then
+// interleave them inside it. Half of these plans quantify over long lists.
+func genHammer(p *plan.SchedPlan, r *plan.Rand, uniq string, k int) *plan.SchedPlan {
+	gens := append(append([]string{}, DatumGens...), "longlist", "longlist", "longlist", "longlist", "coll:long", "coll:long", "coll:slice", "coll:map", "coll:array")
+	gen := gens[r.Intn(len(gens))]
+	nData := r.Range(1, 2)
+	for i := 0; i < nData; i++ {
+		p.Data = append(p.Data, DatumSpec{Gen: gen, Seed: r.Uint64() % 1000000})
+	}
+	var obj ObjSpec
+	for try := 0; try < 4; try++ {
+		obj, _ = genObj(r, uniq, p.Data[:1], true)
+		if strings.Contains(obj.Expr, "any ") || strings.Contains(obj.Expr, "all ") || r.Chance(0.4) {
+			break
+		}
+	}
+	p.Objects = []ObjSpec{obj}
+	p.Primed = []bool{r.Chance(0.2)}
+	kind := "eval"
+	if obj.Kind == "filter" {
+		kind = "exec"
+	}
+	nOps := r.Range(1, 3)
+	withCreate := r.Chance(0.25)
+	for t := 0; t < k; t++ {
+		var ops []plan.SOp
+		if withCreate {
+			o := obj
+			ops = append(ops, plan.SOp{Kind: "create", Obj: -1, Datum: -1, New: &o})
+		}
+		for j := 0; j < nOps; j++ {
+			op := plan.SOp{Kind: kind, Obj: 0, Datum: (t + j) % nData}
+			if withCreate && r.Chance(0.5) {
+				op.Local = true
+			}
+			if obj.Opts.Hook != "" && r.Chance(0.2) {
+				op.FailAt = r.Range(1, 8)
+			}
+			ops = append(ops, op)
+		}
+		p.Tasks = append(p.Tasks, ops)
+	}
+	return p
+}
+
 // AddSchedule draws a schedule for p from the per-op step counts and store
 // offsets measured by a history pass.
 func AddSchedule(p *plan.SchedPlan, hist *passResult, r *plan.Rand) {
 	k := len(p.Tasks)
 	p.Policy = policies[r.Intn(len(policies))]
+	hasSync := false
+	for t := range p.Tasks {
+		for j := range p.Tasks[t] {
+			if len(hist.Recs[t][j].SyncOffs) > 0 && (p.Tasks[t][j].Kind == "eval" || p.Tasks[t][j].Kind == "exec") {
+				hasSync = true
+			}
+		}
+	}
+	fineRR := false
+	if hasSync && r.Chance(0.7) {
+		// the calls take locks or do atomic operations: favour the schedules that
+		// put several callers inside the same critical-section gap
+		p.Policy = []string{"rr", "rr", "syncgap", "lockstep"}[r.Intn(4)]
+		fineRR = true
+	}
 	p.First = r.Intn(k)
 	p.Points = nil
 	p.Quantum = 0
@@ -722,6 +837,29 @@ func AddSchedule(p *plan.SchedPlan, hist *passResult, r *plan.Rand) {
 			}
 			point(o.t, o.j, so[r.Intn(len(so))]+r.Intn(3))
 		}
+	case "syncgap":
+		// right after a statement that locks, unlocks or does an atomic
+		// operation: the gap between a check under one critical section and the
+		// act under the next, or between a publication and its completion
+		var with []ref
+		for _, o := range ops {
+			if len(hist.Recs[o.t][o.j].SyncOffs) > 0 {
+				with = append(with, o)
+			}
+		}
+		if len(with) == 0 {
+			p.Policy = "uniform"
+			for c := r.Range(1, 8); c > 0; c-- {
+				o := ops[r.Intn(len(ops))]
+				point(o.t, o.j, 1+r.Intn(hist.Recs[o.t][o.j].Steps))
+			}
+			break
+		}
+		for c := r.Range(2, 10); c > 0; c-- {
+			o := with[r.Intn(len(with))]
+			so := hist.Recs[o.t][o.j].SyncOffs
+			point(o.t, o.j, so[r.Intn(len(so))]+1+r.Intn(3))
+		}
 	case "dense":
 		// first-use initialisation: switch with probability 1/2 at each of the
 		// first 64 yields of every op
@@ -738,10 +876,25 @@ func AddSchedule(p *plan.SchedPlan, hist *passResult, r *plan.Rand) {
 		}
 	case "rr":
 		p.Quantum = []int{1, 2, 3, 5, 8, 13, 21, 50, 200}[r.Intn(9)]
+		if fineRR {
+			p.Quantum = 1 + r.Intn(4)
+		}
 	case "lockstep":
 		// every caller is advanced to the same offset of its first op before
 		// any of them proceeds
-		off := 1 + r.Intn(48)
+		lim := 48
+		if r.Chance(0.5) {
+			// anywhere inside the first op, not only at its very beginning
+			for t := 0; t < k; t++ {
+				if len(p.Tasks[t]) > 0 && hist.Recs[t][0].Steps > lim {
+					lim = hist.Recs[t][0].Steps
+				}
+			}
+			if lim > 4000 {
+				lim = 4000
+			}
+		}
+		off := 1 + r.Intn(lim)
 		for t := 0; t < k; t++ {
 			if len(p.Tasks[t]) > 0 && hist.Recs[t][0].Steps > 0 {
 				o := off
@@ -786,7 +939,7 @@ type schedResult struct {
 
 func planHash(p *plan.SchedPlan) uint64 {
 	q := *p
-	q.Build, q.Expect = "", ""
+	q.Build, q.Expect, q.RefOut = "", "", nil
 	b, _ := json.Marshal(&q)
 	return hashBytes(b)
 }
@@ -901,6 +1054,11 @@ func execSched(p *plan.SchedPlan) (schedResult, []Finding) {
 	hist := runHistory(p, nil)
 	fresh := runFresh(p)
 	f := judgeConc(p, fresh, hist, conc)
+	if len(f) == 0 {
+		// no object-level disagreement inside this process: compare with the
+		// purely sequential process that generated the plan
+		f = judgeRef(p, conc, hist)
+	}
 	return summarise(p, conc, true, f), f
 }
 
@@ -918,6 +1076,12 @@ func workerSchedGen(cfg WorkerCfg) int {
 		if prop == "C12" {
 			hist := runHistory(p, nil)
 			AddSchedule(p, hist, plan.New(plan.Mix(cfg.Seed, uint64(idx)+0x5ced<<20)))
+			p.RefOut = make([][]string, len(p.Tasks))
+			for t := range p.Tasks {
+				for j := range p.Tasks[t] {
+					p.RefOut[t] = append(p.RefOut[t], outClass(hist.Recs[t][j].Out))
+				}
+			}
 		}
 		cfg.Emit(map[string]interface{}{"type": "plan", "plan": p})
 	}
